@@ -376,7 +376,7 @@ theorem C36_topic_in_use_exists (pr : Profile) (ops : List Op) : TopInv (run (St
 /-- before fixes/D-tree-1.patch: one content-filtered topic, and the participant can never be deleted again — neither
     `delete_contentfilteredtopic` (a no-op) nor `delete_contained_entities` removed it.  After: it can. -/
 theorem C36_delete_contained_counterexample :
-    let ops : List Op := [.createPart true, .createTopic 0 "A" true, .createCft { ph := 0, name := "A" } "F",
+    let ops : List Op := [.createPart true, .createTopic 0 "A" true, .createCft { ph := 0, name := "A" } "F" true,
       .deleteCft 0 "F", .deleteContained 0, .deletePart 0]
     (outsOld (St.init .debug) ops).getLast? = some (.err .preconditionNotMet) ∧
     (outs (St.init .debug) ops).getLast? = some .ok := by decide +kernel
@@ -384,7 +384,7 @@ theorem C36_delete_contained_counterexample :
 /-- before fixes/D-tree-2.patch: a topic that a reader uses through a content-filtered topic is deleted without
     complaint.  After: PreconditionNotMet, and the topic is still there. -/
 theorem C36_topic_in_use_counterexample :
-    let ops : List Op := [.createPart true, .createTopic 0 "A" true, .createCft { ph := 0, name := "A" } "F",
+    let ops : List Op := [.createPart true, .createTopic 0 "A" true, .createCft { ph := 0, name := "A" } "F" true,
       .createSub 0 true, .createReader { ph := 0, b := 0 } "F" true, .deleteTopic 0 { ph := 0, name := "A" }]
     (outsOld (St.init .debug) ops).getLast? = some .ok ∧
     (runOld (St.init .debug) ops).readers.length = 1 ∧ (runOld (St.init .debug) ops).topics.length = 0 ∧
@@ -416,7 +416,7 @@ example :
 /-- the content-filtered-topic clauses are met in reachable states: a reader on a filtered topic protects both the
     filtered topic and its base topic; once the reader is gone both can be deleted, in that order -/
 example :
-    let s := run (St.init .debug) [.createPart true, .createTopic 0 "A" true, .createCft { ph := 0, name := "A" } "F",
+    let s := run (St.init .debug) [.createPart true, .createTopic 0 "A" true, .createCft { ph := 0, name := "A" } "F" true,
       .createSub 0 true, .createReader { ph := 0, b := 0 } "F" true]
     deleteCft s 0 "F" = (s, .err .preconditionNotMet) ∧
     deleteTopic s 0 { ph := 0, name := "A" } = (s, .err .preconditionNotMet) ∧
